@@ -768,59 +768,44 @@ MUST = ({"n_keys": 0}, {"n_keys": 136}, {"n_keys": 137}, {"n_keys": 138}, {"n_ke
 
 
 def impl_constants():
-    """what the tree under test says now: constants (evaluated) and struct formats (AST, as the translator)"""
-    import ast
+    """the constants of the tree under test (evaluated)"""
     import bermuda.io.binary as b
     tags = b"".join([b.STRING, b.INT, b.FLOAT, b.BOOL, b.NONE, b.DATE, b.INT_ARRAY, b.FLOAT_ARRAY, b.DICT_END,
                      b.METADATA, b.CELL, b.CUMULATIVE_CELL, b.INCREMENTAL_CELL])
-
-    def formats(rel):
-        tree = ast.parse(open(os.path.join(common.REPO, rel)).read())
-        res = set()
-        for fn in ast.walk(tree):
-            if isinstance(fn, ast.FunctionDef):
-                for node in ast.walk(fn):
-                    if (isinstance(node, ast.Call) and isinstance(node.func, ast.Attribute)
-                            and node.func.attr in ("pack", "unpack", "calcsize") and node.args
-                            and isinstance(node.args[0], ast.Constant) and isinstance(node.args[0].value, str)):
-                        res.add((fn.name, node.func.attr, node.args[0].value))
-        return [list(x) for x in sorted(res)]
-
-    return {"magic": b.MAGIC.hex(), "version": b.VERSION.hex(), "tags": tags.hex(), "tableOk": True,
-            "writerFormats": formats("bermuda/io/binary_output.py"),
-            "readerFormats": formats("bermuda/io/binary_input.py")}
+    return {"magic": b.MAGIC.hex(), "version": b.VERSION.hex(), "tags": tags.hex(), "tableOk": True}
 
 
 def ensure_tables(ctx, driver, module):
-    """Dynamic cross-check of the regenerated table (DESIGN §5): model and property module must be built
-    against the constants/formats of the tree under test. run_check regenerates and builds in separate steps;
-    a concurrent check of another property (possibly on another tree: VERIF_REPO under mutation testing)
-    can rewrite lean/Bermuda/Generated/*.lean in between. So: under the build lock regenerate Binary, build
-    driver + property module, then ask the compiled driver which table it carries. A property module that no
-    longer builds against the right table is reported as a broken obligation."""
+    """Dynamic cross-check of the regenerated constants (DESIGN §5): the compiled model must carry the
+    magic / version / tags of the tree under test (run_check now regenerates and builds under one lock; this
+    stays as a cheap guard: one driver call). On a mismatch regenerate + rebuild under the lock and report a
+    property module that no longer builds against the right table."""
     import re
     import subprocess
     import translate
     want = impl_constants()
-    for _ in range(4):
+    for attempt in range(4):
+        have = common.Driver(driver).run([{"op": "constants"}])[0]
+        if have == want:
+            return True
         lk = common._lock()
         try:
             translate.regenerate(["Binary"])
+            if module.endswith("C06"):
+                import translate_c06
+                translate_c06.regenerate()
             p = subprocess.run(["lake", "build", driver, module], cwd=common.LEAN, capture_output=True, text=True,
                                timeout=3000)
         finally:
             lk.close()
         log = p.stdout + p.stderr
-        if p.returncode != 0 and not os.path.exists(common.Driver(driver).exe):
-            raise common.Infra("driver build failed:\n" + log[-2000:])
-        have = common.Driver(driver).run([{"op": "constants"}])[0]
-        if have != want:
-            continue                     # somebody rewrote the table between our regenerate and lake reading it
         if p.returncode != 0:
-            ctx.disagree(f"{module} builds against the table regenerated from the tree under test",
-                         {"table": want}, model=re.findall(r"error: ([^\n]*)", log)[:8], impl=want)
-            return False
-        return True
+            if not os.path.exists(common.Driver(driver).exe):
+                raise common.Infra("driver build failed:\n" + log[-2000:])
+            if common.Driver(driver).run([{"op": "constants"}])[0] == want:
+                ctx.disagree(f"{module} builds against the table regenerated from the tree under test",
+                             {"table": want}, model=re.findall(r"error: ([^\n]*)", log)[:8], impl=want)
+                return False
     raise common.Infra("generated constants table keeps changing under this run (concurrent checks on another tree?)")
 
 
